@@ -205,8 +205,10 @@ def gen_plan(seed: int, tier: str):
     total = ref.total
     est = estimate_steps(plan, ref)
 
-    mode = d.weighted([('clean', 1), ('faulty', 9)])
-    n_attempts = 1 if mode == 'clean' else d.between(2, 4)
+    mode = d.weighted([('clean', 1), ('faulty', 9), ('rerun', 1)])
+    # 'rerun': the study completed and is simply called again on its directory (every case must come back from disk)
+    n_attempts = 1 if mode == 'clean' else 2 if mode == 'rerun' else d.between(2, 4)
+    plan['first_force_restart'] = not d.chance(1, 5)      # the first call may itself be made with force_restart=False
     if plan['avoid_crashes'] and mode == 'faulty' and d.chance(1, 4):
         plan['permanent_fail'] = sorted(set(d.below(total) for _ in range(d.between(1, 2))))
     for a in range(n_attempts):
@@ -216,7 +218,7 @@ def gen_plan(seed: int, tier: str):
                          'sticky': d.pick([0, 2, 5, 7])}}
         if d.chance(1, 4):
             att['sched']['starve'] = [d.between(1, procs)]
-        if not last:
+        if not last and mode != 'rerun':
             kinds = d.weighted([('kill', 5), ('fail', 2), ('both', 2)])
             if kinds in ('kill', 'both'):
                 if d.chance(1, 2):
